@@ -431,6 +431,40 @@ def _io_reverse(u, h, c):
     u.IO(u.H(h), c).reverse()
 
 
+@op("io_copy_edit", "hci")
+def _io_copy_edit(u, h, c, i):
+    """A copy of the input/output list is the caller's own: editing it must leave the graph alone."""
+    import copy
+
+    coll = u.IO(u.H(h), c)
+    cp = [coll.copy, lambda: copy.copy(coll), lambda: coll[:], lambda: list(coll)][i % 4]()
+    if len(cp):
+        if i % 3 == 0:
+            cp.clear()
+        elif i % 3 == 1:
+            cp.pop()
+        else:
+            cp.remove(cp[0])
+
+
+@op("init_copy_edit", "hi")
+def _init_copy_edit(u, h, i):
+    """A copy of the initializer mapping is the caller's own: editing it must leave the graph alone."""
+    import copy
+
+    g = u.G(h)
+    cp = [g.initializers.copy, lambda: copy.copy(g.initializers), lambda: dict(g.initializers)][i % 3]()
+    if len(cp):
+        if i % 4 == 0:
+            cp.clear()
+        elif i % 4 == 1:
+            cp.pop(next(iter(cp)))
+        elif i % 4 == 2:
+            cp.popitem()
+        else:
+            del cp[next(iter(cp))]
+
+
 @op("io_imul", "hci")
 def _io_imul(u, h, c, k):
     coll = u.IO(u.H(h), c)
